@@ -153,11 +153,24 @@ func (vc *VC) call(fr *Frame, st *State, instr *ssa.Call, c *ssa.CallCommon) {
 				return
 			}
 		}
+		// a value of a named function type: contract keyed <pkg>.type:<TypeName> (every function of that
+		// type is assumed to satisfy it)
+		if nt, ok := c.Value.Type().(*types.Named); ok && nt.Obj().Pkg() != nil {
+			key := nt.Obj().Pkg().Path() + ".type:" + nt.Obj().Name()
+			if con := vc.eng.contractsByKey[key]; con != nil {
+				vc.dynSig = sig
+				rs := vc.applyContract(fr, st, con, nil, nil, append([]Term{NilP}, args...), types.Typ[types.UntypedNil], pos)
+				vc.setResults(fr, instr, rs)
+				vc.assumed["every function of type "+key+" is assumed to satisfy the type's contract"] = true
+				return
+			}
+		}
 		vc.unknownCall(fr, st, instr, sig, "dynamic call through "+c.Value.Name()+" in "+vc.eng.funcName(fr.fn))
 		return
 	}
 	name := fn.String()
 	if noopCalls[name] {
+		vc.lockRecord(st, name, args)
 		vc.setResults(fr, instr, nil)
 		return
 	}
@@ -354,10 +367,19 @@ func (vc *VC) callMods(fr *Frame, c *ssa.CallCommon, mods map[string]bool, depth
 				return vc.contractMods(con, mods)
 			}
 		}
+		if nt, ok := c.Value.Type().(*types.Named); ok && nt.Obj().Pkg() != nil {
+			if con := vc.eng.contractsByKey[nt.Obj().Pkg().Path()+".type:"+nt.Obj().Name()]; con != nil {
+				return vc.contractMods(con, mods)
+			}
+		}
 		return true
 	}
 	name := fn.String()
 	if noopCalls[name] {
+		if vc.trackLocks && strings.Contains(name, "ock") {
+			mods["W_lockheld"] = true
+			mods["W_lockcnt"] = true
+		}
 		return false
 	}
 	if ms, ok := nativeMods(name); ok {
@@ -853,6 +875,9 @@ func (vc *VC) callAsserts(fr *Frame, st *State, c *ssa.CallCommon, args []Term, 
 	} else if f := c.StaticCallee(); f != nil {
 		name = f.Name()
 		recv = f.Signature.Recv()
+	} else if prm, ok := c.Value.(*ssa.Parameter); ok {
+		// a call through a function-typed parameter is addressed by the parameter's name
+		name = prm.Name()
 	} else {
 		return
 	}
@@ -882,7 +907,9 @@ func (vc *VC) callAsserts(fr *Frame, st *State, c *ssa.CallCommon, args []Term, 
 			}
 			env.names[fmt.Sprintf("arg%d", i)] = Bound{args[i+off], p.Type()}
 		}
+		vc.sameBlockOK = true
 		g := vc.specBool(env, ca.Clause)
+		vc.sameBlockOK = false
 		vc.addObl(fr, st, "callsite", name+"/"+ca.Clause.Label, g, ca.Clause, pos)
 		vc.callAssertHit[ca] = true
 	}
@@ -932,4 +959,35 @@ func (vc *VC) casRecord(st *State, addr Term, name string, ok Term) {
 		}
 		vc.set(st, n, vc.q.Define(n, Store(cur, Root(addr), Store(Select(cur, Root(addr)), PathOf(addr), v))))
 	}
+}
+
+
+// ---- critical sections: locked(&m), lockcount(&m) ----
+// Mutexes do not block in the sequential model, but the engine records, per function, whether this function
+// holds a mutex right now (W_lockheld) and how many times it has acquired it so far (W_lockcnt). A call-site
+// assertion `locked(&x.mu) && lockcount(&x.mu) == 1` states that a read-modify-write sequence lies inside ONE
+// critical section (an Unlock/Lock pair in the middle fails it). Only tracked when the contract uses them.
+
+var lockHeldSort = ArraySort(SInt, ArraySort(SPath, SBool))
+var lockCntSort = ArraySort(SInt, ArraySort(SPath, SInt))
+
+func (vc *VC) lockRecord(st *State, name string, args []Term) {
+	if !vc.trackLocks || len(args) == 0 {
+		return
+	}
+	addr := args[0]
+	var held Term
+	switch {
+	case strings.HasSuffix(name, ").Lock"), strings.HasSuffix(name, ").RLock"):
+		held = True
+		cnt := vc.get(st, "W_lockcnt", lockCntSort)
+		cur := Select(Select(cnt, Root(addr)), PathOf(addr))
+		vc.set(st, "W_lockcnt", vc.q.Define("W_lockcnt", Store(cnt, Root(addr), Store(Select(cnt, Root(addr)), PathOf(addr), Add(cur, IntLit(1))))))
+	case strings.HasSuffix(name, ").Unlock"), strings.HasSuffix(name, ").RUnlock"):
+		held = False
+	default:
+		return
+	}
+	h := vc.get(st, "W_lockheld", lockHeldSort)
+	vc.set(st, "W_lockheld", vc.q.Define("W_lockheld", Store(h, Root(addr), Store(Select(h, Root(addr)), PathOf(addr), held))))
 }
